@@ -5,7 +5,7 @@ import hashlib
 
 from .. import batch, cfggen, fold, model, runner, statemodel
 from ..model import C
-from ..scen import Scn, call, s as S_
+from ..scen import Scn, call, up, s as S_
 from .C07 import cfg_dir
 
 FMT = {14: 0, 28: 2, 126: 3}
@@ -157,11 +157,17 @@ class Encoder:
 
 def gen_scenario(ctx, k):
     rng = ctx.sub_rng('c09', k)
-    cfg = cfggen.gen_config(rng, nboards=rng.randrange(1, 5), with_initial=(k % 2 == 0))
+    cfg = cfggen.gen_config(rng, nboards=rng.randrange(1, 5) if k % 2 == 0 else rng.randrange(3, 7), with_initial=(k % 2 == 0))
     # make sure the interesting equipment exists
     if not cfg['trains']:
         cfg['trains'].append({'id': 'xtrain', 'addr': (0x3E, 0xEE), 'steps': rng.choice(cfggen.SPEED_STEPS), 'calibration': sorted(rng.randrange(127) for _ in range(9)),
                               'peripherals': [{'id': f'xfn{b}', 'bit': b, 'initial': None} for b in rng.sample([b for b in range(32) if b not in (5, 6, 7)], 6)]})
+    with_notices = (k % 2 == 1)
+    if with_notices:
+        # more interfaces, so that boards sit beneath other boards and the loss of an interface disconnects a subtree
+        for b in cfg['boards']:
+            if rng.random() < 0.5:
+                b['uid'] = bytes([b['uid'][0] | 0x80]) + b['uid'][1:]
     d = cfggen.write_config(cfg, cfg_dir(f'c09_{k}'))
     nodes = cfggen.assign_tree(rng, cfg, absent_prob=0.2)
     m = statemodel.Model(cfg, nodes)
@@ -241,7 +247,35 @@ def gen_scenario(ctx, k):
     work.append(('bidib_set_train_speed', [S_(UNK), 5, S_(to_ids[0])], lambda: enc.speed(UNK, 5, to_ids[0])))
     work.append(('bidib_set_train_speed', ['@null', 5, '@null'], lambda: enc.speed(None, 5, None)))
     rng.shuffle(work)
-    for (fn, args, expf) in work:
+    version = [2]
+    nnot = [0]
+    lost_subtrees = [0]
+
+    def node_lost():
+        """a connected board (with everything beneath it, for an interface) drops off the bus: later commands for it must be refused"""
+        conn = [b for b in cfg['boards'] if m.connected(b['id']) and m.addr[b['id']] != (0, 0, 0)]
+        if not conn:
+            return
+        def below(x):
+            ax = m.addr[x['id']]
+            dx = 1 if ax[1] == 0 else 2 if ax[2] == 0 else 3
+            return [y for y in conn if y is not x and dx < 3 and m.addr[y['id']][:dx] == ax[:dx]]
+        withkids = [x for x in conn if below(x)]
+        deep = [x for x in withkids if m.addr[x['id']][1] != 0]
+        b = rng.choice(deep) if deep and rng.random() < 0.8 else rng.choice(withkids) if withkids and rng.random() < 0.7 else rng.choice(conn)
+        lost_subtrees[0] += bool(below(b))
+        a = m.addr[b['id']]
+        dpt = 1 if a[1] == 0 else 2 if a[2] == 0 else 3
+        parent = tuple(list(a[:dpt - 1]) + [0] * (3 - (dpt - 1)))
+        data = bytes([version[0], a[dpt - 1]]) + b['uid']
+        m.on_uplink(parent, C('MSG_NODE_LOST'), data)
+        sc.add(f'mark cn{nnot[0]}', f'bus delnode {a[0]}.{a[1]}.{a[2]}', up(model.build_msg(parent, 0, C('MSG_NODE_LOST'), data)), 'quiesce', 'flush', 'quiesce')
+        nnot[0] += 1
+        version[0] = (version[0] % 255) + 1
+    lost_at = set(rng.sample(range(max(1, len(work) // 3)), min(max(1, len(work) // 3), rng.randrange(1, 4)))) if with_notices else set()   # early: most commands come afterwards
+    for wi, (fn, args, expf) in enumerate(work):
+        if wi in lost_at:
+            node_lost()
         if expf is None:      # emergency stop
             tid, to = args[0][2:], (args[1][2:] if args[1] != '@null' else None)
             exp = enc.estop(tid, to)
@@ -308,7 +342,7 @@ def run(ctx):
     ctx.assumptions = ['encoder vlib/props/C09.py from the header docs and bidib_messages.h layouts', 'accessory numbers / aspect values generated in the BiDiB range 0..127',
                        'a reverser requested through a board it does not belong to is not judged']
     jobs = []
-    for k in range(ctx.n(40, 1500)):
+    for k in range(ctx.n(60, 1500)):
         jobs.append(gen_scenario(ctx, k))
     res = runner.run_many('asan', [(i, j[0]) for i, j in enumerate(jobs)], timeout=900)
     for j, r in zip(jobs, res):
